@@ -113,3 +113,42 @@ func govcTridiag(n int, real bool) {
 
 func GovcTridiagDense3() { govcTridiag(3, false) }
 func GovcTridiagReal3()  { govcTridiag(3, true) }
+
+// in-situ buffers re-used for a second call (first call on a fixed matrix, second on the symbolic one)
+func govcTridiagReuse(n int, real bool) {
+  inSitu := &InSitu{}
+  var first Matrix
+  if real {
+    first = NullDenseReal64Matrix(n, n)
+  } else {
+    first = NullDenseFloat64Matrix(n, n)
+  }
+  for i := 0; i < n; i++ {
+    for j := 0; j < n; j++ {
+      first.At(i, j).SetFloat64(float64(1 + i + j + 3*((i+1)*(j+1)%2)))
+    }
+  }
+  if _, _, err := Run(first, ComputeU{true}, inSitu); err != nil {
+    govcCheck("no-error(first)", false)
+    return
+  }
+  a, a0 := govcSymMat(n, n, real, true)
+  t, u, err := Run(a, ComputeU{true}, inSitu)
+  if err != nil {
+    govcCheck("no-error", false)
+    return
+  }
+  tv, _, _ := govcGet(t)
+  uv, _, _ := govcGet(u)
+  govcOrthonormalCols("U'U=I", uv, n, n)
+  for i := 0; i < n; i++ {
+    for j := 0; j < n; j++ {
+      if j+1 < i || i+1 < j {
+        govcCheckEq(fmt.Sprintf("T-tridiagonal[%d,%d]", i, j), tv[i*n+j], 0.0)
+      }
+    }
+  }
+  govcEqMat("UT=AU", govcMul(uv, n, n, tv, n), govcMul(a0, n, n, uv, n), n, n)
+}
+
+func GovcTridiagReuse3() { govcTridiagReuse(3, false) }
